@@ -20,8 +20,9 @@
 //     Cases the statement leaves open (duplicates, empty signature array, nothing to sign) are
 //     checked conditionally only.
 //
-// TODO(node leg): Visor.WalletSignTransaction on the in-process node fixture (lib/node) — same
-// oracle plus admission of the completed transaction by the node. Not built here.
+// Node leg (nodeleg.go): the same oracle on Visor.WalletSignTransaction of a real visor with a real
+// wallet service, on a chain where the wallets' addresses own unspent outputs; single calls and
+// multi-step sequences (sign a subset, resubmit the partially signed result).
 package main
 
 import (
@@ -30,9 +31,11 @@ import (
 	"fmt"
 	"math"
 	"math/rand"
+	"os"
 	"reflect"
 	"sort"
 	"strings"
+	"time"
 
 	"github.com/skycoin/skycoin/src/cipher"
 	"github.com/skycoin/skycoin/src/cipher/crypto"
@@ -62,6 +65,11 @@ type fixture struct {
 	owned   []owner // addresses the wallet holds (with the secret if the harness knows it)
 	canSign bool
 	why     string // "", "xpub", "encrypted"
+
+	// node leg: the wallet inside the node's wallet service
+	id       string
+	password []byte
+	crypto   string
 }
 
 type group struct {
@@ -118,16 +126,16 @@ func buildGroup(rng *rand.Rand) *group {
 	xo := ownersOf(xp)
 
 	g.fixtures = []fixture{
-		{"deterministic", det, ownersOf(det), true, ""},
-		{"bip44", b44, ownersOf(b44), true, ""},
-		{"collection", col, ownersOf(col), true, ""},
-		{"xpub", xp, xo, false, "xpub"},
+		{name: "deterministic", w: det, owned: ownersOf(det), canSign: true},
+		{name: "bip44", w: b44, owned: ownersOf(b44), canSign: true},
+		{name: "collection", w: col, owned: ownersOf(col), canSign: true},
+		{name: "xpub", w: xp, owned: xo, why: "xpub"},
 	}
 	for _, f := range g.fixtures[:3] {
 		lw := f.w.Clone()
 		lw.SetCryptoType(crypto.CryptoTypeSha256Xor)
 		must(lw.Lock([]byte("pw-" + wfix.RandToken(rng, 6))))
-		g.fixtures = append(g.fixtures, fixture{f.name + "-locked", lw, f.owned, false, "encrypted"})
+		g.fixtures = append(g.fixtures, fixture{name: f.name + "-locked", w: lw, owned: f.owned, why: "encrypted"})
 	}
 	for i := 0; i < 6; i++ {
 		s := wfix.SecKey(rng)
@@ -186,6 +194,22 @@ type tcase struct {
 	keys    []owner // owner of input i (secret known to the harness)
 	sc      sigClass
 	ic      idxClass
+
+	// node leg only
+	node     *world // nil: function-level leg (wallet.SignTransaction)
+	wltID    string
+	pw       []byte
+	pwClass  string // "", "correct", "none", "wrong", "on-unencrypted"
+	noWallet bool   // wltID names no wallet of the service
+	garbage  bool   // a pre-existing signature is not a valid one
+	seq      string // position in a multi-step sequence
+}
+
+func (c *tcase) pfx() string {
+	if c.node != nil {
+		return "node."
+	}
+	return ""
 }
 
 func randSHA(rng *rand.Rand) cipher.SHA256 {
@@ -396,6 +420,7 @@ func main() {
 	n := r.Pick(6000, 200000)
 	groups := (n + groupSize - 1) / groupSize
 
+	t0 := time.Now()
 	vf.Parallel(groups, 16, func(gi int) {
 		grng := r.Rand("group", gi)
 		g := buildGroup(grng)
@@ -405,6 +430,12 @@ func main() {
 			evalCase(r, g, c, gi, ci)
 		}
 	})
+
+	t1 := time.Now() // development timing only (printed on request, decides nothing)
+	nodeLeg(r)
+	if os.Getenv("C13_TIMING") != "" {
+		fmt.Fprintf(os.Stderr, "function leg %v, node leg %v\n", t1.Sub(t0), time.Since(t1))
+	}
 
 	for _, k := range []string{"must_fail.xpub", "must_fail.encrypted", "must_fail.missing_key", "must_fail.index_out_of_range",
 		"must_fail.index_already_signed", "open.duplicate_index", "open.empty_sig_array", "open.nothing_to_sign"} {
@@ -418,15 +449,29 @@ func main() {
 		r.Floor("ok."+k, int64(r.Pick(100, 1000)))
 	}
 	r.Floor("ok.bip44_change_chain_input", int64(r.Pick(20, 200)))
+	// node leg
+	for k, q := range map[string]int{
+		"node.accepted.partially_signed": 250, "node.accepted.unsigned": 250,
+		"node.must_fail.fully_signed": 120, "node.must_fail.xpub": 40, "node.must_fail.encrypted": 20, "node.must_fail.encrypted_wrong_password": 12,
+		"node.must_fail.missing_key": 80, "node.must_fail.no_such_wallet": 15, "node.must_fail.index_out_of_range": 30, "node.must_fail.index_already_signed": 20,
+		"node.ok.encrypted_with_password": 150, "node.ok.partial_to_full": 200, "node.ok.stays_partial": 200, "node.ok.unsigned_to_full": 100,
+		"node.ok.wallet.deterministic": 150, "node.ok.wallet.bip44": 150, "node.ok.wallet.collection": 150, "node.ok.bip44_change_chain_input": 80,
+		"node.seq.partial_result_resubmitted": 200, "node.seq.completed_with_indexes": 60, "node.seq.completed_without_indexes": 60,
+		"node.seq.completed.one-wallet": 80, "node.seq.completed.two-wallets": 40, "node.signatures.verified_refsecp": 1200,
+	} {
+		r.Floor(k, int64(r.Pick(q, 6*q)))
+	}
 	r.Finish("per case a wallet kind (deterministic / bip44 ext+change / collection / xpub / locked variants), 1..8 inputs each owned by the wallet or by a foreign key, a signature array (empty, all-null, partially pre-signed with valid or garbage signatures, full) and an index list (none, subset, exactly the unsigned set, duplicate, out of range, over-long, pointing at a signed input) are drawn from the seed; a case is distinct by (wallet kind, ownership bitmap, pre-signed bitmap, index list)",
-		"function-level leg only (wallet.SignTransaction); the Visor.WalletSignTransaction node leg is a marked TODO",
+		"node leg: Visor.WalletSignTransaction of a real visor + wallet service on a harness-made chain (genesis, a distribution block giving every wallet address and six harness keys unspent outputs, one later block); wallets deterministic / bip44 (external+change) / collection / xpub and three encrypted ones (sha256-xor, scrypt-chacha20poly1305-insecure) addressed with the right / no / a wrong password; transactions are fully valid and spendable (exact coins, burn paid, 0.001 grid), unsigned, partially pre-signed by the real owners, or fully signed; sequences sign a named subset first and resubmit the partially signed result (remaining indexes named, or none; one wallet or two wallets in turn) until complete, then submit the complete transaction again",
+		"node leg: the node must sign every such transaction that is not fully signed when the wallet is usable and owns the requested (or all unsigned) inputs, and must refuse fully signed transactions, watch-only wallets, encrypted wallets without the right password, unknown wallet ids and requests for inputs whose key the wallet lacks; an invalid signature already on the transaction, a password given for an unencrypted wallet, an empty signature array and duplicate indexes are left open (conditional clauses only), since the node validates the transaction before signing",
 		"entry ownership is read from the wallet under test (derivation correctness is C17); signature validity is decided by lib/refsecp (verify and recover), addresses by cipher.AddressFromPubKey",
 		"index lists with duplicates, an empty signature array, and 'nothing left to sign' are not defined by the statement: only the conditional clauses are checked there",
 		"transactions whose signature array length differs from the input count are not generated (Visor rejects them before the wallet is reached)")
 }
 
-func evalCase(r *vf.Run, g *group, c *tcase, gi, ci int) {
+func evalCase(r *vf.Run, g *group, c *tcase, gi, ci int) (result *coin.Transaction) {
 	r.Eval(1)
+	pfx := c.pfx()
 	n := len(c.txn.In)
 	pre := deepCopyTxn(c.txn)
 	idxIn := append([]int(nil), c.idx...)
@@ -434,7 +479,11 @@ func evalCase(r *vf.Run, g *group, c *tcase, gi, ci int) {
 	var res *coin.Transaction
 	var err error
 	panicked, pmsg, pframe := vf.Recover(func() {
-		res, err = wallet.SignTransaction(c.fx.w, c.txn, idxIn, c.ux)
+		if c.node != nil {
+			res, _, err = c.node.v.WalletSignTransaction(c.wltID, c.pw, c.txn, idxIn)
+		} else {
+			res, err = wallet.SignTransaction(c.fx.w, c.txn, idxIn, c.ux)
+		}
 	})
 
 	// model -----------------------------------------------------------------------
@@ -475,10 +524,17 @@ func evalCase(r *vf.Run, g *group, c *tcase, gi, ci int) {
 	}
 	mustFail, reason := false, ""
 	switch {
+	case c.noWallet:
+		mustFail, reason = true, "no_such_wallet"
 	case c.fx.why == "xpub":
 		mustFail, reason = true, "xpub"
-	case c.fx.why == "encrypted":
+	case c.fx.why == "encrypted" && c.pwClass == "wrong":
+		mustFail, reason = true, "encrypted_wrong_password"
+	case c.fx.why == "encrypted" && c.pwClass != "correct":
 		mustFail, reason = true, "encrypted"
+	case c.node != nil && !anyNull:
+		// the node refuses transactions that are already fully signed
+		mustFail, reason = true, "fully_signed"
 	case outOfRange:
 		mustFail, reason = true, "index_out_of_range"
 	case hitsSigned:
@@ -489,6 +545,11 @@ func evalCase(r *vf.Run, g *group, c *tcase, gi, ci int) {
 	open, openWhy := false, ""
 	if !mustFail {
 		switch {
+		case c.garbage && c.node != nil:
+			// the node verifies the transaction before signing: an invalid signature already on it is its business
+			open, openWhy = true, "invalid_presignature"
+		case c.pwClass == "on-unencrypted":
+			open, openWhy = true, "password_on_unencrypted"
 		case c.sc == sigEmpty:
 			open, openWhy = true, "empty_sig_array"
 		case len(req) == 0:
@@ -511,9 +572,24 @@ func evalCase(r *vf.Run, g *group, c *tcase, gi, ci int) {
 		}
 	}
 	desc := fmt.Sprintf("%s own=%s sigs=%s/%s idx=%v/%s", c.fx.name, own, sigNames[c.sc], sg, c.idx, idxNames[c.ic])
+	leg := "function"
+	if c.node != nil {
+		leg = "node"
+		desc = "node " + desc + " pw=" + c.pwClass
+		if c.seq != "" {
+			desc += " seq=" + c.seq
+		}
+		if c.noWallet {
+			desc += " unknown-wallet-id"
+		}
+	}
 	r.Distinct(desc)
 	attrs := func(extra ...string) map[string]string {
-		m := map[string]string{"wallet": c.fx.name, "sig_class": sigNames[c.sc], "idx_class": idxNames[c.ic], "case": desc}
+		m := map[string]string{"leg": leg, "wallet": c.fx.name, "sig_class": sigNames[c.sc], "idx_class": idxNames[c.ic], "case": desc}
+		if c.node != nil {
+			m["password"] = c.pwClass
+			m["step"] = c.seq
+		}
 		for i := 0; i+1 < len(extra); i += 2 {
 			m[extra[i]] = extra[i+1]
 		}
@@ -530,10 +606,16 @@ func evalCase(r *vf.Run, g *group, c *tcase, gi, ci int) {
 		if err != nil {
 			m["error"] = err.Error()
 		}
+		if c.node != nil {
+			m["leg"] = "node: Visor.WalletSignTransaction(" + c.wltID + ")"
+			m["password_class"] = c.pwClass
+			m["step"] = c.seq
+			m["world"] = c.node.describe()
+		}
 		return m
 	}
 
-	r.Count("wallet."+c.fx.name, 1)
+	r.Count(pfx+"wallet."+c.fx.name, 1)
 
 	if panicked {
 		r.Violation("panic", attrs("frame", pframe, "msg", pmsg), witness())
@@ -554,10 +636,10 @@ func evalCase(r *vf.Run, g *group, c *tcase, gi, ci int) {
 		}
 		switch {
 		case mustFail:
-			r.Count("must_fail."+reason, 1)
+			r.Count(pfx+"must_fail."+reason, 1)
 		case open:
-			r.Count("open."+openWhy, 1)
-			r.Count("open."+openWhy+".error", 1)
+			r.Count(pfx+"open."+openWhy, 1)
+			r.Count(pfx+"open."+openWhy+".error", 1)
 		default:
 			r.Violation("unexpected-failure", attrs("error", err.Error()), witness())
 		}
@@ -569,12 +651,12 @@ func evalCase(r *vf.Run, g *group, c *tcase, gi, ci int) {
 		return
 	}
 	if mustFail {
-		r.Count("must_fail."+reason, 1)
+		r.Count(pfx+"must_fail."+reason, 1)
 		r.Violation("unexpected-success", attrs("expected_failure", reason), witness())
 		// fall through: the clauses below say what exactly went wrong
 	} else if open {
-		r.Count("open."+openWhy, 1)
-		r.Count("open."+openWhy+".success", 1)
+		r.Count(pfx+"open."+openWhy, 1)
+		r.Count(pfx+"open."+openWhy+".success", 1)
 	}
 	bad := false
 	if len(res.In) != n || !reflect.DeepEqual(res.In, pre.In) {
@@ -615,7 +697,7 @@ func evalCase(r *vf.Run, g *group, c *tcase, gi, ci int) {
 				r.Violation("bad-signature", attrs("index", fmt.Sprint(i), "why", why), witness())
 				bad = true
 			} else {
-				r.Count("signatures.verified_refsecp", 1)
+				r.Count(pfx+"signatures.verified_refsecp", 1)
 			}
 		default:
 			if !res.Sigs[i].Null() {
@@ -624,7 +706,11 @@ func evalCase(r *vf.Run, g *group, c *tcase, gi, ci int) {
 			}
 		}
 	}
-	if bad || !mustSucceed {
+	if bad {
+		return
+	}
+	result = res
+	if !mustSucceed {
 		return
 	}
 	full := true
@@ -633,22 +719,32 @@ func evalCase(r *vf.Run, g *group, c *tcase, gi, ci int) {
 			full = false
 		}
 	}
-	base := strings.TrimSuffix(c.fx.name, "-locked")
-	r.Count("ok.wallet."+base, 1)
+	base := strings.TrimSuffix(strings.TrimSuffix(c.fx.name, "-locked"), "-enc")
+	if c.node != nil {
+		if c.sc == sigPartial {
+			r.Count("node.accepted.partially_signed", 1)
+		} else {
+			r.Count("node.accepted.unsigned", 1)
+		}
+		if c.fx.why == "encrypted" {
+			r.Count("node.ok.encrypted_with_password", 1)
+		}
+	}
+	r.Count(pfx+"ok.wallet."+base, 1)
 	switch {
 	case full && c.sc == sigPartial:
-		r.Count("ok.partial_to_full", 1)
+		r.Count(pfx+"ok.partial_to_full", 1)
 	case full:
-		r.Count("ok.unsigned_to_full", 1)
+		r.Count(pfx+"ok.unsigned_to_full", 1)
 	default:
-		r.Count("ok.stays_partial", 1)
+		r.Count(pfx+"ok.stays_partial", 1)
 	}
-	if c.fx.name == "bip44" {
+	if base == "bip44" {
 		// an input owned by a change-chain entry was signed
 		ext, _ := c.fx.w.GetEntries(wallet.OptionExternal())
 		for i := range req {
 			if !ext.Has(c.ux[i].Body.Address) {
-				r.Count("ok.bip44_change_chain_input", 1)
+				r.Count(pfx+"ok.bip44_change_chain_input", 1)
 				break
 			}
 		}
@@ -659,8 +755,9 @@ func evalCase(r *vf.Run, g *group, c *tcase, gi, ci int) {
 			idx = append(idx, i)
 		}
 		sort.Ints(idx)
-		r.Sample(map[string]interface{}{"wallet": c.fx.name, "inputs": n, "owned": string(own), "presigned": string(sg), "sign_indexes": c.idx, "newly_signed": idx, "fully_signed_after": full})
+		r.Sample(map[string]interface{}{"leg": leg, "step": c.seq, "wallet": c.fx.name, "inputs": n, "owned": string(own), "presigned": string(sg), "sign_indexes": c.idx, "newly_signed": idx, "fully_signed_after": full})
 	}
+	return
 }
 
 // verifySig checks signature i of res against the address of the output it spends
